@@ -18,13 +18,11 @@ SPEC = {
                     "unconditionally, so a configuration made before Open() is overwritten, and if it equals the defaults its grid stays "
                     "anchored at the stale static SyncOffset (observed, not part of this check)",
                     "nothing is received and no product/configuration information is pending during the modelled polls (those paths are C08-C10)",
-                    "SendHeartbeat(int iDev) is an explicit application / group-function send and is not gated by IsActiveNode(); "
-                    "C12_inactive_silent covers SendHeartbeat(bool) and ParseMessages()",
                     "offset special values other than 0xffffffff (keep) are ordinary offsets in the code (the header's 'restore default' for the "
                     "offset is not implemented; (0xffffffff,0xffff) is 'do not change')", "dm_None, default build configuration"],
 }
 MANIFEST = {
-    'text': "Theorems over the model (tree with the three recorded fixes): a heartbeat scheduler polled at ANY list of times always holds the "
+    'text': "Theorems over the model (tree with the four recorded fixes): a heartbeat scheduler polled at ANY list of times always holds the "
             "least point of its grid syncOffset+offset+j*period strictly after its last update, sends only at polls, only after the grid "
             "point has passed and at most once per grid point (late polling delays, never shifts); after ANY history of operations on the "
             "node (clock advances, polls, forced heartbeats, interval/offset changes, claims, back-pressure) every device's scheduler is "
@@ -32,7 +30,7 @@ MANIFEST = {
             "heartbeats are c,c+1,...,252,0,... over ANY history while forced ones carry 0xFF and do not count; for EVERY interval up to "
             "655320 ms the message has the published layout and its interval bytes decode at 10 ms resolution to the interval within "
             "10 ms; SetHeartbeatIntervalAndOffset is characterised for EVERY argument, device index and device (keep own / default / "
-            "disable / clip to 1000..655320, NextTime); inactive modes hand nothing to SendMsg. Correspondence and oracle: real node "
+            "disable / clip to 1000..655320, NextTime); in inactive modes none of the three heartbeat entry points hands anything to SendMsg. Correspondence and oracle: real node "
             "behind the mock driver under a virtual clock, both timer builds, 1..9 devices, jittered polls, gaps of several periods, "
             "polls landing on grid points, >253 heartbeats, interval changes at arbitrary times, origins near 2^31 and 2^32; the oracle "
             "computes the grid from the observed open time and the configured interval/offset alone and decodes the payload.",
